@@ -48,6 +48,25 @@ def run_case(ctx, S, a, b, m, tag, reuse=None):
         elif reuse == "copy" and prev is not None:
             s = prev.copy().domain([a, b])
             ctx.path("copied-scale-object")
+        elif reuse == "copy-sibling-asked-first" and prev is not None:
+            # two live scales related by copy() hold different domains; the other one is asked for the same count first
+            s = prev.copy().domain([a, b])
+            list(prev.ticks(m)) if m is not None else list(prev.ticks())
+            prev.tickFormat(m) if m is not None else prev.tickFormat()
+            ctx.path("copy-sibling-asked-first")
+        elif reuse in ("ticks-then-nice", "ticks-then-nice-other-count"):
+            # ticks and format asked for, then the domain moved by nice() (no domain() call in between): the ticks asked for
+            # afterwards belong to the domain the scale reports then
+            s = S.LinearScale().domain([a, b])
+            list(s.ticks(m)) if m is not None else list(s.ticks())
+            s.tickFormat(m) if m is not None else s.tickFormat()
+            if reuse == "ticks-then-nice" and m is not None:
+                s.nice(m)
+            else:
+                s.nice()
+            a, b = s.domain()
+            case["domain_after_nice"] = [a, b]
+            ctx.path("ticks-then-nice" + ("-moved" if [a, b] != case["domain"] else "-unmoved"))
         else:
             s = S.LinearScale().domain([a, b])
         _REUSE["scale"] = s
@@ -89,7 +108,7 @@ def worker(ctx, shard):
     rng = ctx.rng("ticks%d" % shard["sub"])
     for _ in range(shard["n"]):
         a, b, m, tag = lin.gen_domain(rng)
-        run_case(ctx, S, a, b, m, tag, reuse=rng.choice([None, None, None, "same-object", "copy"]))
+        run_case(ctx, S, a, b, m, tag, reuse=rng.choice([None, None, None, "same-object", "copy", "ticks-then-nice", "ticks-then-nice-other-count", "copy-sibling-asked-first"]))
     for k, v in cnt.items():
         ctx.event(k, v)
     p.uninstall()
